@@ -5,7 +5,7 @@ export GOFLAGS=-mod=mod GOPROXY=off GOSUMDB=off GOTOOLCHAIN=local
 ROOT=$1; shift
 WT=/tmp/wt/verify
 [ -d $WT ] || git -C /repo worktree add -q --detach $WT HEAD
-for d in $ROOT/*/[a-d]; do
+for d in $ROOT/*/[a-f]; do
   id=$(basename $(dirname $d)); v=$(basename $d)
   if [ $# -gt 0 ]; then case " $* " in *" $id "*) ;; *) continue;; esac; fi
   [ -f $d/meta.json ] || { echo "$id$v: no meta.json"; continue; }
